@@ -80,6 +80,9 @@ def run(chk: Check):
             if abs(round(np.linalg.det(C))) >= 1 and not np.array_equal(C, C.T):
                 break
         ham = wf.gen_ham(rng, n, int(rng.integers(1, 4)), True)
+        if rid % 2 == 0:     # the congruence statement is about EVERY matrix: non-symmetric one-body / Cholesky matrices too
+            ham["h1u"], ham["h1d"] = wf.rand_int(rng, (n, n)), wf.rand_int(rng, (n, n))
+            ham["chol"] = np.array([wf.rand_int(rng, (n, n)) for _ in ham["chol"]])
         xs = [ham["h1u"], ham["h1d"]] + list(ham["chol"])
         reqs.append({"id": rid, "kind": "cong", "c": wf.enc_i(C), "xs": [wf.enc_i(x) for x in xs]})
         data[rid] = (n, C, ham)
